@@ -566,9 +566,19 @@ func CowCTA(c *core.Ctx) {
 						})
 					}
 					callee := onSelf(pubCall, recv)
+					// a step literal handed to the publisher (modify(r, func(om) (M, R) {…})) that branches on the
+					// snapshot it receives is the re-examination
+					stepReexamines := false
+					for _, a := range pubCall.Args {
+						if sl, ok := ast.Unparen(a).(*ast.FuncLit); ok && litBranchesOnParam(sl) {
+							stepReexamines = true
+						}
+					}
 					switch {
 					case guardRead == nil:
 						c.Add("R-CTA", name+"/check-then-act", pubCall.Pos(), core.Discharged, "no branch on a read outside the critical section precedes the publishing call")
+					case stepReexamines:
+						c.Add("R-CTA", name+"/check-then-act", pubCall.Pos(), core.Discharged, "optimistic read; the step handed to "+callee+" re-examines the snapshot it is given")
 					case reexamines[callee]:
 						c.Add("R-CTA", name+"/check-then-act", pubCall.Pos(), core.Discharged, "optimistic read; the publishing method "+callee+" re-examines the current snapshot inside its critical section")
 					default:
